@@ -51,15 +51,19 @@ structure FState where
   S : Bits
   j : Nat
 
+/-- the loop body up to the assignment: the value `x^(x<<lin[j])` stored into `A[i]` -/
+def fVal (n : Nat) (A : Array Nat) (S : Bits) (j i : Nat) : Bits :=
+  let x := (S.xor (e A (i - n))).xor (e A (i - Gen.Md6.t0))
+  let x := (x.xor ((e A (i - Gen.Md6.t1)).and (e A (i - Gen.Md6.t2)))).xor
+              ((e A (i - Gen.Md6.t3)).and (e A (i - Gen.Md6.t4)))
+  let x := x.xor (x.shr (Gen.Md6.rin.getD j 0))
+  x.xor (x.shl (Gen.Md6.lin.getD j 0))
+
 /-- one iteration of `for i in range(n,n+t)` (n = `N.dim`) -/
 def fStep (n : Nat) (st : FState) (i : Nat) : FState :=
   match st with
   | ⟨A, S, j⟩ =>
-    let x := (S.xor (e A (i - n))).xor (e A (i - Gen.Md6.t0))
-    let x := (x.xor ((e A (i - Gen.Md6.t1)).and (e A (i - Gen.Md6.t2)))).xor
-                ((e A (i - Gen.Md6.t3)).and (e A (i - Gen.Md6.t4)))
-    let x := x.xor (x.shr (Gen.Md6.rin.getD j 0))
-    let v := x.xor (x.shl (Gen.Md6.lin.getD j 0))
+    let v := fVal n A S j i
     let A := A.setIfInBounds i (v.ival % 2 ^ 64)                  -- `A[i] = v` stores `v.int() & mask`
     let j := j + 1
     if j = Gen.Md6.jWrap then
@@ -94,9 +98,10 @@ def W0 (o : MD6) : List Nat :=
 
 /-- `W[i] = v` for an int index inside the list -/
 def setW (W : List Nat) (i : Nat) (v : Nat) : List Nat := W.set i (v % 2 ^ 64)
-/-- `W[a:b] = vs` with `len(vs) = b-a` and b ≤ dim: element-wise assignment -/
-def setWs (W : List Nat) (a : Nat) (vs : List Nat) : List Nat :=
-  (List.range vs.length).foldl (fun W k => setW W (a + k) (vs.getD k 0)) W
+/-- `W[a:b] = vs` with `len(vs) = b-a` and b ≤ dim: `for j,b in zip(r,v): self[j] = b` -/
+def setWs (W : List Nat) (a : Nat) : List Nat → List Nat
+  | [] => W
+  | v :: vs => setWs (setW W a v) (a + 1) vs
 
 /-- `pack(c,'>L')` for each `c` of a ring-2^64 Poly, joined -/
 def packWords (C : List Nat) : List Nat := C.flatMap fun v => (Bits.ofNatSz v 64).pack true
